@@ -20,7 +20,8 @@ CONSTANTS MaxLen,        \* longest text a constructor makes
           MaxDepth,      \* operations per history
           Alphabet,      \* set of code points
           Palette,       \* set of text ids (into the VERIF_TEXTS table)
-          MaxTotalLen    \* longest text any operation may produce
+          MaxTotalLen,   \* longest text any operation may produce
+          WithParse      \* include the parse / re-parse / simplify actions (C02, C03)
 
 VARIABLES heap, ninst, depth, ev, hist
 vars == <<heap, ninst, depth, ev, hist>>
@@ -77,6 +78,21 @@ RefRender(v, i, fl) ==
        \o <<LOWM, v.t[i]>> \o RefRender(v, i + 1, fl)
 RefRenderAll(v, fl) ==
   IF Len(v.t) = 0 THEN (IF fl[2] = 1 THEN <<ESC, LBRK, 48, LOWM>> ELSE << >>) ELSE RefRender(v, 1, fl)
+
+\* reference parser: the per-character terminal state of the input, one setting per non-default group in a fixed order
+GroupOrder == <<"bold", "ital", "ul", "blink", "swap", "hide", "cross", "font", "space", "box", "over", "fg", "bg", "ulc">>
+TidOf(text) == CHOOSE i \in TextIds : TextTable[i] = text
+StateSettings(sig, base) ==
+  LET on == SelectSeq(GroupOrder, LAMBDA g : sig[g] # << >>) IN
+  [k \in DOMAIN on |-> <<base + k, TidOf(JoinDec(sig[on[k]], 1))>>]
+RefParse(input, base) ==
+  LET run == RunToks(FlatToks(Tokens(input), 1), 1, DefaultState) IN
+  MkVal("S", [i \in DOMAIN run.chars |-> run.chars[i][1]], [i \in DOMAIN run.chars |-> StateSettings(run.chars[i][2], base)])
+
+\* inputs with escape sequences for the constructor: up to three items, each a character or an SGR sequence
+SgrBodies == {<< >>, <<48>>} \cup {TextTable[t] : t \in Palette} \cup {TextTable[a] \o <<SEMI>> \o TextTable[b] : a \in Palette, b \in Palette}
+ParseItems == {<<c>> : c \in Alphabet} \cup {<<ESC, LBRK>> \o body \o <<LOWM>> : body \in SgrBodies}
+ParseInputs == {a \o b \o c : a \in ParseItems, b \in ParseItems \cup {<< >>}, c \in ParseItems \cup {<< >>}}
 
 ---------------------------------------------------------------------------
 \* one step: the new heap, the event describing it, and the operation description for export
@@ -182,10 +198,34 @@ Render ==
                         parsable |-> IF ValAllSingle(v) THEN 1 ELSE 0]],
        [op |-> "render", r |-> x, flags |-> fl], 0)
 
+\* AnsiString(text with escape sequences)  (C02)
+NewParsed ==
+  \E input \in ParseInputs :
+    (\E i \in DOMAIN input : input[i] = ESC) /\
+    LET r == NextFree v == RefParse(input, ninst) IN
+    Do([heap EXCEPT ![r] = v],
+       Ev("new", 0, [cls |-> "S", src |-> 0, text |-> input, S |-> << >>, inplace |-> 0], <<r>>, 0),
+       [op |-> "new", text |-> input, S |-> << >>], 14)
+
+\* AnsiString(str(s))  (C03 round trip)
+Reparse ==
+  \E x \in Live :
+    LET r == NextFree v == RefParse(RefRenderAll(heap[x], <<1, 0, 1>>), ninst) IN
+    Do([heap EXCEPT ![r] = v], Ev("reparse", x, [cls |-> "S", inplace |-> 0], <<r>>, 0), [op |-> "reparse", r |-> x], 14)
+
+\* simplify()  (C03): re-parse of the own rendering, in place
+Simplify ==
+  \E x \in Live :
+    LET v == RefParse(RefRenderAll(heap[x], <<1, 0, 1>>), ninst) IN
+    Do([heap EXCEPT ![x] = v],
+       [Ev("simplify", x, [inplace |-> 1], << >>, 0) EXCEPT !.o = [pyout |-> "ok", parsable |-> 1, q2 |-> << >>, rt |-> << >>]],
+       [op |-> "simplify", r |-> x], 14)
+
 Next ==
   /\ depth < MaxDepth
   /\ \/ (Free # {} /\ (New \/ Copy \/ Slice \/ Add \/ Pad \/ Strip))
      \/ Apply \/ Remove \/ Clear \/ IAdd \/ Render
+     \/ (WithParse /\ ((Free # {} /\ (NewParsed \/ Reparse)) \/ Simplify))
 
 Spec == Init /\ [][Next]_vars
 
